@@ -13,9 +13,10 @@
    impl == M and impl == S are checked on every run by tools/props/C05.py. *)
 From Coq Require Import Strings.String.
 From Coq Require Import List NArith ZArith Arith Bool Lia.
-From YVGen Require Import Rules EmitArms Opcodes.
+From YVGen Require Import Rules EmitArms Opcodes Consts.
 From YV Require Import Ast Num Show Bytecode Scanner ParserRules Parser Pretty ParseRun ParserProofs.
 From YV Require Import ExprSem CompileExpr FragVM Decompile CompileExprProofs C05Run.
+From YV Require Import FnSem FnCompile FnVM FnFamilies FnProofs.
 Import ListNotations.
 Local Open Scope nat_scope.
 Local Open Scope list_scope.
@@ -80,6 +81,15 @@ Theorem C05_side_emit_define_variable : seq_is emit_seq_gen "define_variable" = 
 Theorem C05_side_emit_end_scope : seq_is emit_seq_gen "end_scope" = true. Proof. vm_compute; reflexivity. Qed.
 Theorem C05_side_emit_literals : seq_is emit_seq_gen "number" = true /\ seq_is emit_seq_gen "string" = true.
 Proof. vm_compute; split; reflexivity. Qed.
+
+Theorem C05_side_emit_function : seq_is emit_seq_gen "function" = true /\ seq_is emit_seq_gen "lambda" = true /\
+  seq_is emit_seq_gen "fn_declaration" = true.
+Proof. vm_compute; repeat split; reflexivity. Qed.
+Theorem C05_side_emit_return : seq_is emit_seq_gen "return_statement" = true /\ seq_is emit_seq_gen "emit_return" = true.
+Proof. vm_compute; split; reflexivity. Qed.
+(* the frame limit of call_closure *)
+Theorem C05_side_frames_max : YVGen.Consts.FRAMES_MAX = N.of_nat FnSem.FRAMES_MAX.
+Proof. vm_compute; reflexivity. Qed.
 
 (* the parameter of CompileExpr.cstmt: the current break_statement emits its scope-end pops BEFORE its Jump *)
 Theorem C05_side_break_pops_first : break_pops_first_of emit_seq_gen = Some true.
@@ -241,6 +251,35 @@ Theorem C05_compile_program_correct : forall f p s' o,
   end.
 Proof. exact compile_program_correct. Qed.
 
+(* ================= first-class functions (FnSem / FnCompile / FnVM: ONE compiler model and ONE machine for the union fragment) ================= *)
+
+(* stage 1 - PROVED for all programs: functions that capture nothing (globals, parameters, own locals).  The reference
+   evaluator with an environment of cells and call depth as fuel = the machine with frames: calls with arguments, the
+   arity error, the 64-frame limit, return with / without value, implicit nil, expression-bodied lambdas, recursion
+   through globals, function values, and every statement of the earlier fragment inside function bodies. *)
+Theorem C05_compile_fn_correct_nocapture : forall fuel p s' o,
+  xprogram_ok p = true -> nocap_code (fo_code (xprogram p)) = true ->
+  frun_program fuel p = (s', o) ->
+  match o with
+  | FNormal => exists k m, mrun k (mstate0 (xprogram p)) = MDone m /\ mwd m = ewd s'
+  | FErr e => e <> Unsupported -> exists k, mrun k (mstate0 (xprogram p)) = MFail e (ewd s')
+  | FFuel => True
+  | FBreak | FContinue | FReturn _ => False
+  end.
+Proof. exact compile_fn_correct_nocapture. Qed.
+
+(* stage 2 (captured variables only read after capture) and stage 3 (shared mutable captured variables, escaping
+   closures) - PARTIAL: the two sides agree on bounded families, by computation; the general statements and what is
+   missing are in theories/FnProofs.v; the check compares both sides on generated programs at every run *)
+Theorem C05_compile_fn_correct_readonly_partial :
+  family_ok family_readonly = true /\
+  (family_uses [OpGetUpvalue] family_readonly, family_uses [OpSetUpvalue] family_readonly) = (20, 0).
+Proof. exact compile_fn_correct_readonly_partial. Qed.
+Theorem C05_compile_fn_correct_closures_partial :
+  family_ok family_closures = true /\
+  (family_uses [OpSetUpvalue] family_closures, family_uses [OpCloseUpvalue] family_closures) = (20, 5).
+Proof. exact compile_fn_correct_closures_partial. Qed.
+
 Print Assumptions C05_side_rules_table.
 Print Assumptions C05_side_opcode_names.
 Print Assumptions C05_side_binary_arms.
@@ -287,3 +326,9 @@ Print Assumptions C05_stack_discipline_unrepaired_refuted.
 Print Assumptions C05_compile_expr_correct.
 Print Assumptions C05_compile_stmt_correct.
 Print Assumptions C05_compile_program_correct.
+Print Assumptions C05_side_emit_function.
+Print Assumptions C05_side_emit_return.
+Print Assumptions C05_side_frames_max.
+Print Assumptions C05_compile_fn_correct_nocapture.
+Print Assumptions C05_compile_fn_correct_readonly_partial.
+Print Assumptions C05_compile_fn_correct_closures_partial.
